@@ -6,9 +6,10 @@
   refuses, `Input.apdu a` for its verdict otherwise, so the statements cover every input.
 -/
 import DlmsVerif.Lemmas.ConnDefs
+import DlmsVerif.Lemmas.ConnRecv
 
 namespace Props.C07
-open Dlms Model.Conn Lemmas.ConnDefs
+open Dlms Model.Conn Lemmas.ConnDefs Lemmas.ConnRecv
 
 /-- **refused for decoding, authentication or replay ⇒ nothing changes**: protocol state, both
     invocation counters, meter title, authentication mechanism, challenge, negotiated
@@ -16,14 +17,25 @@ open Dlms Model.Conn Lemmas.ConnDefs
     every configuration and every input. -/
 theorem C07_refused_unchanged (c : Config) (s s' : Conn) (x : Input) (hx : Input.wf x = true) (e : Err)
     (h : recv T c s x = (.error e, s')) (he : e = .decode ∨ e = .auth) : s' = s := by
-  sorry
+  cases x with
+  | garbage => simp [recv] at h; exact h.2.symm
+  | apdu a =>
+    simp only [recv] at h
+    cases hu : unprotect c s a with
+    | error e' => rw [hu] at h; simp at h; exact h.2.symm
+    | ok p =>
+      obtain ⟨a1, s1⟩ := p
+      rw [hu] at h; dsimp only at h
+      obtain ⟨hw1, _⟩ := unprotect_ok hx hu
+      obtain ⟨he', _⟩ := deliver_error c s1 s' a1 e hw1 h
+      rcases he with rfl | rfl <;> simp at he'
 
 /-- a protected APDU whose invocation counter is not larger than the last accepted one is
     refused with nothing changed, whatever else it contains (replays, duplicates, decreasing runs). -/
 theorem C07_replay_unchanged (c : Config) (h : c.useProtection = true) (s : Conn) (t : Bytes) (sc ic : Nat) (ct : Cipher)
     (hic : ic ≤ s.meterIC) :
     recv T c s (.apdu (.ggc t sc ic ct)) = (.error .protocol, s) := by
-  sorry
+  simp [recv, unprotect, h, hic]
 
 /-- **refused because the kind is not allowed in this state** (or on a pre-established
     association, or because it is not protected): nothing changes, except that the counter of
@@ -32,7 +44,18 @@ theorem C07_wrong_kind (c : Config) (s s' : Conn) (a : Apdu) (ha : Apdu.wf a = t
     (h : recv T c s (.apdu a) = (.error e, s')) (he : e = .protocol ∨ e = .preEstablished ∨ e = .protection) :
     s' = s ∨ (∃ a1 s1, unprotect c s a = .ok (a1, s1) ∧ s' = s1 ∧
               s1.obs = { s.obs with meterIC := s1.meterIC } ∧ s.meterIC < s1.meterIC) := by
-  sorry
+  have _ := he
+  simp only [recv] at h
+  cases hu : unprotect c s a with
+  | error e' => rw [hu] at h; simp at h; exact .inl h.2.symm
+  | ok p =>
+    obtain ⟨a1, s1⟩ := p
+    rw [hu] at h; dsimp only at h
+    obtain ⟨hw1, hs1⟩ := unprotect_ok ha hu
+    obtain ⟨_, rfl⟩ := deliver_error c s1 s' a1 e hw1 h
+    rcases hs1 with rfl | ⟨ic, hic, rfl⟩
+    · exact .inl rfl
+    · exact .inr ⟨a1, _, rfl, rfl, rfl, hic⟩
 
 /-- hence **a forged or corrupted APDU cannot make the connection reject the meter's next
     genuine APDUs**: after an input refused for decoding/authentication the connection
@@ -40,7 +63,7 @@ theorem C07_wrong_kind (c : Config) (s s' : Conn) (a : Apdu) (ha : Apdu.wf a = t
 theorem C07_forged_harmless (c : Config) (s s' : Conn) (x : Input) (hx : Input.wf x = true) (e : Err)
     (h : recv T c s x = (.error e, s')) (he : e = .decode ∨ e = .auth) (cont : List Op) :
     run T c cont s' = run T c cont s := by
-  sorry
+  rw [C07_refused_unchanged c s s' x hx e h he]
 
 /-- a text that is not sealed under exactly (encryption key, remembered meter title, the
     counter in the APDU, the connection's security-control byte, authentication key) is never
@@ -49,7 +72,16 @@ theorem C07_unauthentic_refused (c : Config) (ek ak : Key) (hk : keysOk c ek ak)
     (hmt : s.meterTitle = some mt) (hl : mt.length = 8) (t : Bytes) (sc ic : Nat) (ct : Cipher) (hic : s.meterIC < ic) (hic2 : ic < 2 ^ 32)
     (hna : ∀ p, ct ≠ .sealed { key := ek, title := mt, ic := ic, sc := c.scByte, ak := ak } p) (hs : ct ≠ .tooShort) :
     recv T c s (.apdu (.ggc t sc ic ct)) = (.error .auth, s) := by
-  sorry
+  obtain ⟨hek, hak, hsu, hl1, hl2, hct⟩ := hk
+  have hne : mt ≠ [] := by intro h0; subst h0; simp at hl
+  cases ct with
+  | tooShort => exact absurd rfl hs
+  | junk n =>
+    simp [recv, unprotect, decrypt, Config.useProtection, hek, hak, hmt, hne, hl, hsu, hl1, hl2, Nat.not_le.mpr hic, Nat.not_le.mpr hic2]
+  | sealed args p =>
+    have hargs : args ≠ { key := ek, title := mt, ic := ic, sc := c.scByte, ak := ak } := by
+      intro h0; subst h0; exact hna p rfl
+    simp [recv, unprotect, decrypt, Config.useProtection, hek, hak, hmt, hne, hl, hsu, hl1, hl2, Nat.not_le.mpr hic, Nat.not_le.mpr hic2, hargs]
 
 /-- non-vacuity: a bad-tag APDU with a huge counter, then the genuine next one is accepted. -/
 example :
@@ -58,6 +90,6 @@ example :
     let good : Cipher := .sealed { key := ⟨1, 16⟩, title := [9,9,9,9,9,9,9,9], ic := 7, sc := 48, ak := ⟨2, 16⟩ } (.simple .getRespNormal)
     (recv T c s (.apdu (.ggc [9,9,9,9,9,9,9,9] 48 1000 (.junk 0)))).2 = s ∧
     (recv T c s (.apdu (.ggc [9,9,9,9,9,9,9,9] 48 7 good))).2.state = "READY" := by
-  sorry
+  decide
 
 end Props.C07
